@@ -21,6 +21,12 @@ WHAT = {
 }
 
 
+def world_of(repo):
+    if getattr(repo, '_c08_world', None) is None:
+        repo._c08_world = World(repo, PP + ':PageParser')
+    return repo._c08_world
+
+
 def run(repo, chk):
     chk.explanation = ('RESET: closure of objects that live as long as the PageParser (constructor calls, factories, constructor-argument '
                        'propagation); fields stored outside __init__ on the per-page call graph; forward must-write analysis over access paths '
@@ -48,7 +54,7 @@ def run(repo, chk):
 
 
 def reset(repo, chk):
-    w = World(repo, PP + ':PageParser')
+    w = world_of(repo)
     need(len(w.classes) >= 25, 'long-lived closure shrank to %d classes' % len(w.classes))
     ra = ResetAnalysis(w, PP + ':PageParser', 'process_page')
     exposed = ra.run()
@@ -79,7 +85,7 @@ def reset(repo, chk):
 
 
 def rng(repo, chk):
-    w = World(repo, PP + ':PageParser')
+    w = world_of(repo)
     ra = ResetAnalysis(w, PP + ':PageParser', 'process_page')
     seen = set()
     n = 0
@@ -101,7 +107,7 @@ def rng(repo, chk):
 
 
 def module_state(repo, chk):
-    w = World(repo, PP + ':PageParser')
+    w = world_of(repo)
     ra = ResetAnalysis(w, PP + ':PageParser', 'process_page')
     seen = set()
     n = 0
